@@ -139,4 +139,24 @@ def passClauses {ρ} [BEq ρ] (inner out : Response ρ) : List (String × Bool) 
    ("response-headers", hdrsEq out.headers inner.headers), ("response-extensions", extEq out.ext inner.ext),
    ("response-body", out.body == inner.body)]
 
+/-! ### routing (gRPC: `Path → "/" Service-Name "/" {method name}`) -/
+
+/-- split at every `/` -/
+def splitSlash : Bytes → List Bytes
+  | [] => [[]]
+  | c :: rest =>
+    match splitSlash rest with
+    | [] => [[]]
+    | seg :: segs => if c == 47 then [] :: seg :: segs else (c :: seg) :: segs
+
+/-- the path addresses service `name`: segments are `"" , name , m …` with something after the
+service name -/
+def pathNamesService (name path : Bytes) : Bool :=
+  match splitSlash path with
+  | first :: svc :: m :: more => first.isEmpty && svc == name && !(m.isEmpty && more.isEmpty)
+  | _ => false
+
+/-- headers that belong to HTTP framing, not to the gRPC message (a router may add them) -/
+def httpFraming (k : Bytes) : Bool := k == str "content-length"
+
 end Spec.Interceptor
